@@ -119,13 +119,27 @@ type gitPeer struct {
 	lists    int
 	rounds   int
 	protoErr string
+	// pendingOut: bytes written by the filter since the current request was handed over
+	pendingOut int
 	// neverAnnounced: an empty list arrived while blobs were still delayed
 	neverAnnounced string
 	objs           []*Obj
 	failable       map[int]bool
 }
 
-func (p *gitPeer) Write(b []byte) (int, error) { return p.out.Write(b) }
+// pipeCapacity: what an OS pipe holds before a writer blocks. Git writes a
+// whole request before it reads anything, so a filter that answers while more
+// than a pipe's worth of the request is still unread, and has itself written
+// more than a pipe's worth, would leave both sides blocked for good.
+const pipeCapacity = 65536
+
+func (p *gitPeer) Write(b []byte) (int, error) {
+	p.pendingOut += len(b)
+	if len(p.in) > pipeCapacity && p.pendingOut > pipeCapacity && p.last != nil {
+		p.fail("the filter wrote %d bytes of its answer to %s %q while %d bytes of the request were still unread: with pipes between Git and the filter both sides would block forever", p.pendingOut, p.last.Cmd, p.last.Path, len(p.in))
+	}
+	return p.out.Write(b)
+}
 
 func (p *gitPeer) fail(format string, a ...interface{}) {
 	if p.protoErr == "" {
@@ -146,6 +160,7 @@ func (p *gitPeer) Read(b []byte) (int, error) {
 }
 
 func (p *gitPeer) encode(r *fReq) {
+	p.pendingOut = 0
 	var b []byte
 	switch r.Cmd {
 	case "clean":
